@@ -193,6 +193,25 @@ def gen(seed, tier, want=None):
         if rng.random() < 0.3:
             h = h + [0xE4]
         emit(lines, cfg, "SFG", h, fix_needle(cfg, word), rng, all_tags=(k % 3 == 0))
+    # ---- truncated occurrence at the very end: the haystack ENDS with a proper prefix of the needle (with and
+    #      without a complete occurrence earlier), needles starting with 0..3 non-letters: every candidate scan that
+    #      looks at the last needle_len - 1 positions must still clamp / reject there (round 6, C05-m11 / C10-m11) ----
+    for k in range(nbase // 5):
+        cfg = rand_cfg(rng)
+        lead = [rng.choice([45, 47, 49, 46, 95, 32]) for _ in range(rng.choice([0, 1, 1, 2, 2, 3]))]
+        tail = [rng.choice([ord("a"), ord("b"), ord("c"), ord("Z"), 45, 49]) for _ in range(rng.randint(1, 3))]
+        n_ = lead + tail
+        if len(n_) < 2:
+            n_ = n_ + [ord("b")]
+        t = rng.randint(1, len(n_) - 1)
+        body = rand_string(rng, rng.randint(0, 8), rng.choice([0, 0, 0.2]))
+        if rng.random() < 0.5:
+            p_ = rng.randint(0, len(body))
+            body = body[:p_] + n_ + body[p_:]
+        h = body + n_[:t]
+        if rng.random() < 0.15:
+            h = h + [rng.choice([32, 0xE4])]
+        emit(lines, cfg, "SPOEFG" if k % 2 else "S", h, fix_needle(cfg, n_), rng, all_tags=(k % 3 == 0))
     # ---- random ----
     for k in range(nbase // 3):
         cfg = rand_cfg(rng)
